@@ -1,7 +1,88 @@
-(* C42 — placeholder *)
+(* C42 — Source and destination templates substitute placeholders exactly.
+   Only statements here; every proof is `exact <lemma of Proofs/C42_Template.v>`.
+   t: template; ms: the Go slice matches (ms[0] whole match, ms[1..] capture groups); q: the client's query;
+   resolve_source / resolve_dest: the code (descending chains of strings.ReplaceAll);
+   single_pass_*: the specification (one left-to-right pass, longest placeholder at each position,
+   nothing inside a value looked at). Sources know $G<n> and $MTX_QUERY, destinations $G<n> and $MTX_PATH. *)
 From Coq Require Import List ZArith Bool.
-Require Import MTX.Model.C42_Template.
+Require Import MTX.Model.C42_Template MTX.Proofs.C42_Template.
 Import ListNotations.
 Local Open Scope Z_scope.
-Example C42_example : resolve_source [36;71;49] [[120];[121]] [] = [121].
-Proof. reflexivity. Qed.
+
+(* Full strength (every template) is false of the code: a value placed after a stray dollar or directly after
+   a group placeholder can complete / lengthen a placeholder that a later ReplaceAll then replaces. *)
+Theorem C42_source_equals_single_pass_refuted :
+  ~ (forall t ms q, Forall dollar_free ms -> resolve_source t ms q = single_pass_source t ms q).
+Proof. exact source_full_statement_refuted. Qed.
+Print Assumptions C42_source_equals_single_pass_refuted.
+
+Theorem C42_dest_equals_single_pass_refuted :
+  ~ (forall t path ms, dollar_free path -> Forall dollar_free ms ->
+                       resolve_dest t path ms = single_pass_dest t path ms).
+Proof. exact dest_full_statement_refuted. Qed.
+Print Assumptions C42_dest_equals_single_pass_refuted.
+
+(* the witnesses, with both outputs (all values are valid path names) *)
+Theorem C42_witness_stray_dollar :    (* $$G1, group 1 = MTX_QUERY, query s=1 *)
+  Forall dollar_free w1_ms /\ resolve_source w1_t w1_ms w1_q = [115; 61; 49] /\
+  single_pass_source w1_t w1_ms w1_q = [36; 77;84;88;95;81;85;69;82;89].
+Proof. exact source_refuted_stray_dollar. Qed.
+Print Assumptions C42_witness_stray_dollar.
+
+Theorem C42_witness_adjacent :        (* $G1$G11, 11 groups a..j and 0: the code answers j, the pass a0 *)
+  Forall dollar_free w2_ms /\ resolve_source w2_t w2_ms [] = [106] /\
+  single_pass_source w2_t w2_ms [] = [97; 48].
+Proof. exact source_refuted_adjacent. Qed.
+Print Assumptions C42_witness_adjacent.
+
+Theorem C42_witness_dest_stray_dollar :   (* $$MTX_PATH, path name G1 *)
+  dollar_free [71; 49] /\ Forall dollar_free w3_ms /\ resolve_dest w3_t [71; 49] w3_ms = [71; 49] /\
+  single_pass_dest w3_t [71; 49] w3_ms = [36; 71; 49].
+Proof. exact dest_refuted_stray_dollar. Qed.
+Print Assumptions C42_witness_dest_stray_dollar.
+
+(* Partial: on every template inside the boolean guard `template_ok` (a dollar that starts no placeholder is
+   not followed by G, M or a placeholder; a group placeholder is followed by the end or by a literal non-digit),
+   for every number of groups and all dollar-free group values (path names are validated: always), the chain is
+   the single pass. No hypothesis on the query: it is inserted last, so nothing inside it is ever replaced. *)
+Theorem C42_source_equals_single_pass_partial : forall t ms q,
+  template_ok (src_cfg ms) t = true -> Forall dollar_free ms ->
+  resolve_source t ms q = single_pass_source t ms q.
+Proof. exact source_equals_single_pass. Qed.
+Print Assumptions C42_source_equals_single_pass_partial.
+
+Theorem C42_dest_equals_single_pass_partial : forall t path ms,
+  template_ok (dst_cfg ms) t = true -> dollar_free path -> Forall dollar_free ms ->
+  resolve_dest t path ms = single_pass_dest t path ms.
+Proof. exact dest_equals_single_pass. Qed.
+Print Assumptions C42_dest_equals_single_pass_partial.
+
+Theorem C42_query_inert : forall ms q, Forall dollar_free ms -> resolve_source pat_query ms q = q.
+Proof. exact query_inert. Qed.
+Print Assumptions C42_query_inert.
+
+(* $G<k> is group k for every k up to the number of groups: $G12 is group 12, not group 1 followed by 2 *)
+Theorem C42_multidigit : forall ms q k,
+  (1 <= k <= length ms - 1)%nat -> Forall dollar_free ms -> resolve_source (pat_g k) ms q = nth k ms [].
+Proof. exact multidigit_source. Qed.
+Print Assumptions C42_multidigit.
+
+Theorem C42_multidigit_dest : forall ms path k,
+  (1 <= k <= length ms - 1)%nat -> dollar_free path -> Forall dollar_free ms ->
+  resolve_dest (pat_g k) path ms = nth k ms [].
+Proof. exact multidigit_dest. Qed.
+Print Assumptions C42_multidigit_dest.
+
+(* the boolean preconditions used by the correspondence run imply the propositional ones *)
+Theorem C42_dollar_freeb : forall s, dollar_freeb s = true -> dollar_free s.
+Proof. exact dollar_freeb_spec. Qed.
+Print Assumptions C42_dollar_freeb.
+
+(* non-vacuity: rtsp://h/$G1/$G12?$MTX_QUERY with 12 groups is inside the guard *)
+Example C42_example :
+  let t := [114;116;115;112;58;47;47;104;47; 36;71;49; 47; 36;71;49;50; 63; 36;77;84;88;95;81;85;69;82;89] in
+  let ms := [[119]; [97]; [98]; [99]; [100]; [101]; [102]; [103]; [104]; [105]; [106]; [107]; [108;108]] in
+  template_ok (src_cfg ms) t = true /\
+  resolve_source t ms [36;71;49] = [114;116;115;112;58;47;47;104;47; 97; 47; 108;108; 63; 36;71;49] /\
+  pat_g 12 = [36;71;49;50] /\ template_ok (src_cfg w1_ms) w1_t = false /\ template_ok (src_cfg w2_ms) w2_t = false.
+Proof. vm_compute. repeat split. Qed.
